@@ -364,3 +364,254 @@ func H_C04_signLexing() {
 		vfAssert(c04EqF(tight.Float(), spaced.Float()), "an operator written without spaces means the same as with spaces")
 	}
 }
+
+// ---- generated expression trees (thorough tier) ----
+
+type c04Node struct {
+	op   string // "" for a leaf
+	l, r *c04Node
+	leaf int  // leaf index in source order
+	neg  bool // leaf written with a unary minus
+	typ  byte // 'i' or 'b' (result type)
+}
+
+var c04BinOps = []string{"*", "/", "%", "+", "-", "<", "<=", ">", ">=", "==", "!=", "&&", "||"}
+
+func c04Prec(op string) int {
+	switch op {
+	case "*", "/", "%":
+		return 6
+	case "+", "-":
+		return 5
+	case "<", "<=", ">", ">=":
+		return 4
+	case "==", "!=":
+		return 3
+	}
+	return 2 // && || (one level)
+}
+
+// c04Shape builds the k-th of the five binary-tree shapes with three operators; leaves are
+// numbered in source order.
+func c04Shape(k int, o1, o2, o3 string) *c04Node {
+	lf := func(i int) *c04Node { return &c04Node{leaf: i} }
+	n := func(op string, l, r *c04Node) *c04Node { return &c04Node{op: op, l: l, r: r} }
+	switch k {
+	case 0: // ((0 o1 1) o2 2) o3 3
+		return n(o3, n(o2, n(o1, lf(0), lf(1)), lf(2)), lf(3))
+	case 1: // (0 o1 (1 o2 2)) o3 3
+		return n(o3, n(o1, lf(0), n(o2, lf(1), lf(2))), lf(3))
+	case 2: // (0 o1 1) o2 (2 o3 3)
+		return n(o2, n(o1, lf(0), lf(1)), n(o3, lf(2), lf(3)))
+	case 3: // 0 o1 ((1 o2 2) o3 3)
+		return n(o1, lf(0), n(o3, n(o2, lf(1), lf(2)), lf(3)))
+	}
+	// 0 o1 (1 o2 (2 o3 3))
+	return n(o1, lf(0), n(o2, lf(1), n(o3, lf(2), lf(3))))
+}
+
+// c04TypeOf assigns result types bottom-up; want is the type a leaf should take ('i' or
+// 'b'); reports false for an ill-typed tree.
+func c04TypeOf(t *c04Node, want byte) bool {
+	if t.op == "" {
+		t.typ = want
+		return true
+	}
+	switch c04Prec(t.op) {
+	case 6, 5, 4:
+		if !c04TypeOf(t.l, 'i') || !c04TypeOf(t.r, 'i') || t.l.typ != 'i' || t.r.typ != 'i' {
+			return false
+		}
+		t.typ = 'i'
+		if c04Prec(t.op) == 4 {
+			t.typ = 'b'
+		}
+	case 3:
+		// both sides of one type: an operator child decides, two leaves are ints
+		w := byte('i')
+		if t.l.op != "" {
+			if !c04TypeOf(t.l, 'i') {
+				return false
+			}
+			w = t.l.typ
+		} else if t.r.op != "" {
+			if !c04TypeOf(t.r, 'i') {
+				return false
+			}
+			w = t.r.typ
+		}
+		if !c04TypeOf(t.l, w) || !c04TypeOf(t.r, w) || t.l.typ != w || t.r.typ != w {
+			return false
+		}
+		t.typ = 'b'
+	default:
+		if !c04TypeOf(t.l, 'b') || !c04TypeOf(t.r, 'b') || t.l.typ != 'b' || t.r.typ != 'b' {
+			return false
+		}
+		t.typ = 'b'
+	}
+	return true
+}
+
+// c04Render writes the tree with the fewest parentheses the documented grouping needs
+// (style 0), with every operator node parenthesised (style 1) or without any space
+// (style 2).
+func c04Render(t *c04Node, style int) string {
+	if t.op == "" {
+		name := string([]byte{"abcd"[t.leaf]})
+		if t.typ == 'b' {
+			name = string([]byte{"pqrs"[t.leaf]})
+		}
+		if t.neg {
+			return "-" + name
+		}
+		return name
+	}
+	side := func(c *c04Node, right bool) string {
+		s := c04Render(c, style)
+		if c.op == "" {
+			return s
+		}
+		if style == 1 || c04Prec(c.op) < c04Prec(t.op) || (right && c04Prec(c.op) == c04Prec(t.op)) {
+			return "(" + s + ")"
+		}
+		return s
+	}
+	sp := " "
+	if style == 2 {
+		sp = ""
+	}
+	return side(t.l, false) + sp + t.op + sp + side(t.r, true)
+}
+
+// c04Eval evaluates the tree directly (this is the documented meaning: the tree IS the
+// grouping); divisors are assumed non-zero before they are used.
+func c04Eval(t *c04Node, iv []int64, bv []bool) (int64, bool) {
+	if t.op == "" {
+		if t.typ == 'b' {
+			return 0, bv[t.leaf]
+		}
+		if t.neg {
+			return -iv[t.leaf], false
+		}
+		return iv[t.leaf], false
+	}
+	li, lb := c04Eval(t.l, iv, bv)
+	ri, rb := c04Eval(t.r, iv, bv)
+	switch t.op {
+	case "*":
+		return li * ri, false
+	case "/":
+		vfAssume(ri != 0)
+		return li / ri, false
+	case "%":
+		vfAssume(ri != 0)
+		return li % ri, false
+	case "+":
+		return li + ri, false
+	case "-":
+		return li - ri, false
+	case "<":
+		return 0, li < ri
+	case "<=":
+		return 0, li <= ri
+	case ">":
+		return 0, li > ri
+	case ">=":
+		return 0, li >= ri
+	case "==":
+		if t.l.typ == 'b' {
+			return 0, lb == rb
+		}
+		return 0, li == ri
+	case "!=":
+		if t.l.typ == 'b' {
+			return 0, lb != rb
+		}
+		return 0, li != ri
+	case "&&":
+		return 0, lb && rb
+	}
+	return 0, lb || rb
+}
+
+func c04HasDiv(t *c04Node) bool {
+	if t.op == "" {
+		return false
+	}
+	return t.op == "/" || t.op == "%" || c04HasDiv(t.l) || c04HasDiv(t.r)
+}
+
+// H_C04_trees (thorough): every well-typed expression tree with three binary operators
+// drawn from all 13 (5 shapes x 13^3 operator triples, ill-typed ones dropped) over int
+// leaves a..d and bool leaves p..s with symbolic values, an optional unary minus on one int
+// leaf, written (0) with exactly the parentheses the documented precedence and left
+// associativity require, (1) fully parenthesised, (2) minimal and without spaces: jet's
+// value equals the direct evaluation of the tree for all leaf values. Operands are 16-bit
+// when the tree divides (solver cost) and divisors non-zero.
+//
+//gosym:reach evaluated
+//gosym:thorough-only
+//gosym:opts maxpaths=400000 wall=1500
+func H_C04_trees() {
+	o1 := c04BinOps[ndChoice("o1", len(c04BinOps))]
+	o2 := c04BinOps[ndChoice("o2", len(c04BinOps))]
+	o3 := c04BinOps[ndChoice("o3", len(c04BinOps))]
+	t := c04Shape(ndChoice("shape", 5), o1, o2, o3)
+	vfAssume(c04TypeOf(t, 'i'))
+	style := ndChoice("style", 3)
+	// unary minus on one int leaf (not in the no-space style, where "--" would arise)
+	if style != 2 {
+		if k := ndChoice("neg", 5); k < 4 {
+			var find func(n *c04Node) *c04Node
+			find = func(n *c04Node) *c04Node {
+				if n.op == "" {
+					if n.leaf == k {
+						return n
+					}
+					return nil
+				}
+				if x := find(n.l); x != nil {
+					return x
+				}
+				return find(n.r)
+			}
+			lf := find(t)
+			vfAssume(lf.typ == 'i')
+			lf.neg = true
+		}
+	}
+	iv := []int64{ndInt64("a"), ndInt64("b"), ndInt64("c"), ndInt64("d")}
+	bv := []bool{ndBool("p"), ndBool("q"), ndBool("r"), ndBool("s")}
+	if c04HasDiv(t) {
+		for _, x := range iv {
+			vfAssume(x > -30000 && x < 30000)
+		}
+	}
+	wi, wb := c04Eval(t, iv, bv)
+	src := c04Render(t, style)
+	var got reflect.Value
+	set := hxSet(nil, "/m.jet", `{{ cap(`+src+`) }}`)
+	vars := make(VarMap)
+	for k := 0; k < 4; k++ {
+		vars.Set(string([]byte{"abcd"[k]}), iv[k])
+		vars.Set(string([]byte{"pqrs"[k]}), bv[k])
+	}
+	vars.SetFunc("cap", c04Capture(&got))
+	_, err := hxExec(set, "/m.jet", vars, nil)
+	vfReach("evaluated")
+	vfNote(src)
+	vfAssert(err == nil, "the expression parses and evaluates")
+	if err != nil {
+		return
+	}
+	if t.typ == 'b' {
+		gb, ok := c04Bool(got)
+		vfAssert(ok, "comparisons and logical operators yield true or false")
+		vfAssert(gb == wb, "value equals the direct evaluation of the tree")
+	} else {
+		gi, ok := c04Int(got)
+		vfAssert(ok, "two integers combine integrally")
+		vfAssert(gi == wi, "value equals the direct evaluation of the tree")
+	}
+}
